@@ -13,7 +13,7 @@ cleanup() { git -C /repo worktree remove --force "$WT" >/dev/null 2>&1; rm -rf "
 trap cleanup EXIT
 case "$CHANGE" in
   revert:*) git -C "$WT" revert --no-commit "${CHANGE#revert:}" >/dev/null 2>&1 || { echo "revert failed"; exit 3; } ;;
-  *) git -C "$WT" apply "$CHANGE" || { echo "patch failed"; exit 3; } ;;
+  *) git -C "$WT" apply "$CHANGE" 2>/dev/null || git -C "$WT" apply --3way "$CHANGE" || { echo "patch failed"; exit 3; } ;;
 esac
 mkdir -p "$SCR/evidence" "$SCR/replays"
 cd "$(dirname "$0")/.."
